@@ -169,6 +169,10 @@ def _join_case(args):
     import contextlib
     d = _mkdir(scratch, "j")
     out = []
+    # every second join case gives the inputs different frame rates (the
+    # frame offset of an input is counted in that input's own frames)
+    fps_of = (lambda j: FPS) if not tiny else \
+        (lambda j: (2000.0, 3000.0, 1500.0, 2500.0, 1000.0)[j % 5])
     case = {"kind": "join", "spec": [list(map(
         lambda x: list(x) if isinstance(x, tuple) else x, s)) for s in spec],
         "seed": seed, "tiny_chunks": tiny}
@@ -191,9 +195,13 @@ def _join_case(args):
             date, tm = TIMES[tkey]
             # the given order is the reverse of the path order
             p = d / f"in{9 - j}_{'zyxwv'[j]}.rtdc"
-            gen.write_rtdc(p, ev, meta=gen.complete_meta(
-                n, date=date, time=tm, run_index=1,
-                run_id=f"vf-run-{j}"), logs={f"log{j}": [f"line of {j}"]})
+            mj = gen.complete_meta(n, date=date, time=tm, run_index=1,
+                                   run_id=f"vf-run-{j}")
+            mj["imaging"]["frame rate"] = fps_of(j)
+            if "time" in ev and "frame" in ev:
+                # keep the stored time consistent with frame / frame rate
+                ev["time"] = np.asarray(ev["frame"], float) / fps_of(j)
+            gen.write_rtdc(p, ev, meta=mj, logs={f"log{j}": [f"line of {j}"]})
             paths.append(p)
             evs.append(ev)
         outp = d / "joined.rtdc"
@@ -232,10 +240,10 @@ def _join_case(args):
                 dt = _abs_time(*TIMES[spec[j][0]]) - t0
                 if f == "time":
                     base = ev["time"] if "time" in ev else \
-                        np.asarray(ev["frame"], float) / FPS
+                        np.asarray(ev["frame"], float) / fps_of(j)
                     chunks.append(base + dt)
                 elif f == "frame":
-                    chunks.append(ev["frame"] + int(round(dt * FPS)))
+                    chunks.append(ev["frame"] + int(round(dt * fps_of(j))))
                 elif f == "index_online":
                     if pos == 0:
                         chunks.append(ev[f])
